@@ -40,33 +40,24 @@ pub enum MateCase {
 
 pub const HISTORY_PLIES: [usize; 8] = [0, 0, 0, 0, 40, 160, 300, 380];
 
-/// A four-ply cycle a, b, a-back, b-back of quiet non-pawn moves that returns to `p`
-fn shuffle_cycle(p: &Pos) -> Option<[RMove; 4]> {
-    let quiet = |q: &Pos| -> Vec<RMove> { q.legal().into_iter().filter(|&m| !q.is_capture(m) && m.kind == K_NORMAL && m.promo == 0 && q.b[m.from as usize].to_ascii_lowercase() != b'p').collect() };
-    for a in quiet(p) {
-        let p1 = p.make(a);
-        for b in quiet(&p1) {
-            let p2 = p1.make(b);
-            let (ba, bb) = (RMove { from: a.to, to: a.from, promo: 0, kind: K_NORMAL }, RMove { from: b.to, to: b.from, promo: 0, kind: K_NORMAL });
-            if !p2.legal().contains(&ba) {
-                continue;
-            }
-            let p3 = p2.make(ba);
-            if p3.legal().contains(&bb) && p3.make(bb) == *p {
-                return Some([a, b, ba, bb]);
-            }
-        }
-    }
-    None
-}
-
-/// The engine game for `p`, optionally at the end of a record of `plies` shuffle plies
+/// The engine game for `p`, optionally at the end of a record of `plies` shuffle plies.
+/// The engine avoids repeating its own move of four plies ago when the opponent has just repeated his
+/// (a documented heuristic at the root). So that this heuristic stays out of the way of what C10 judges,
+/// the record is built so that it does NOT end in such a pattern: the last cycle uses another opponent
+/// move than the one before it; if the position offers no two such cycles, the record is one cycle long.
 fn game_with_history(p: &Pos, plies: usize) -> Result<(Game, usize), Fail> {
     let mut g = Game::new(&p.fen6()).map_err(|e| Fail::new("sane-position-not-importable", e.to_string()))?;
     let mut done = 0;
     if plies >= 4 {
-        if let Some(cycle) = shuffle_cycle(p) {
-            while done + 4 <= plies {
+        let cycles = shuffle_cycles(p);
+        if let Some(first) = cycles.first().copied() {
+            let last = cycles.iter().copied().find(|c| c[1] != first[1] && c[3] != first[3]);
+            let total_cycles = match last {
+                Some(_) => plies / 4,
+                None => 1,
+            };
+            for k in 0..total_cycles {
+                let cycle = if k + 1 == total_cycles && total_cycles > 1 { last.unwrap() } else { first };
                 for m in cycle {
                     let Some(em) = crate::eng::find_legal(&mut g, &m.uci()) else {
                         return Err(Fail::new("legal-move-not-offered", format!("{} in {}", m.uci(), g.fen())));
@@ -74,6 +65,11 @@ fn game_with_history(p: &Pos, plies: usize) -> Result<(Game, usize), Fail> {
                     g.push_history(em);
                 }
                 done += 4;
+            }
+            // harness self-check: the record must not end in the pattern the repetition heuristic looks for
+            let ms = g.move_stack();
+            if ms.len() >= 5 && ms[ms.len() - 1] == ms[ms.len() - 5] {
+                return Err(Fail::new("harness", "history ends in a repetition pattern".into()));
             }
         }
     }
